@@ -1,0 +1,202 @@
+//! Verification hooks (feature `verif-hooks`, off by default).
+//!
+//! Thin, add-only wrappers that expose crate-private functions to an external
+//! verification harness using plain `[i32; 256]` arrays and byte slices. Nothing
+//! in the crate calls these; with the feature off this file is not compiled.
+#![allow(missing_docs, clippy::pedantic, clippy::missing_errors_doc, clippy::type_complexity)]
+
+use crate::types::{R, T};
+use crate::{conversion, encodings, hashing, helpers, high_low, ntt};
+
+/// Plain polynomial (either domain).
+pub type Poly = [i32; 256];
+
+fn to_r<const N: usize>(v: &[Poly; N]) -> [R; N] { core::array::from_fn(|i| R(v[i])) }
+fn to_t<const N: usize>(v: &[Poly; N]) -> [T; N] { core::array::from_fn(|i| T(v[i])) }
+fn from_r<const N: usize>(v: &[R; N]) -> [Poly; N] { core::array::from_fn(|i| v[i].0) }
+fn from_t<const N: usize>(v: &[T; N]) -> [Poly; N] { core::array::from_fn(|i| v[i].0) }
+
+// ----- helpers.rs -----
+
+#[inline(never)]
+pub fn partial_reduce32(a: i32) -> i32 { helpers::partial_reduce32(a) }
+#[inline(never)]
+pub fn full_reduce32(a: i32) -> i32 { helpers::full_reduce32(a) }
+#[inline(never)]
+pub fn partial_reduce64(a: i64) -> i32 { helpers::partial_reduce64(a) }
+#[inline(never)]
+pub fn mont_reduce(a: i64) -> i32 { helpers::mont_reduce(a) }
+#[inline(never)]
+pub fn center_mod(m: i32) -> i32 { helpers::center_mod(m) }
+#[inline(never)]
+pub fn infinity_norm<const ROW: usize>(w: &[Poly; ROW]) -> i32 {
+    helpers::infinity_norm(&to_r(w))
+}
+#[inline(never)]
+pub fn to_mont<const N: usize>(v: &[Poly; N]) -> [Poly; N] { from_t(&helpers::to_mont(&to_t(v))) }
+#[inline(never)]
+pub fn mat_vec_mul<const K: usize, const L: usize>(
+    a_hat: &[[Poly; L]; K], u_hat: &[Poly; L],
+) -> [Poly; K] {
+    let a: [[T; L]; K] = core::array::from_fn(|i| to_t(&a_hat[i]));
+    from_t(&helpers::mat_vec_mul(&a, &to_t(u_hat)))
+}
+#[inline(never)]
+pub fn add_vector_ntt<const K: usize>(v: &[Poly; K], w: &[Poly; K]) -> [Poly; K] {
+    from_r(&helpers::add_vector_ntt(&to_r(v), &to_r(w)))
+}
+#[must_use]
+pub fn zeta_table_mont() -> [i32; 256] { helpers::ZETA_TABLE_MONT }
+#[must_use]
+pub fn bit_length(x: i32) -> usize { helpers::bit_length(x) }
+#[inline(never)]
+pub fn is_in_range(w: &Poly, lo: i32, hi: i32) -> bool { helpers::is_in_range(&R(*w), lo, hi) }
+
+// ----- ntt.rs -----
+
+#[inline(never)]
+pub fn ntt<const N: usize>(w: &[Poly; N]) -> [Poly; N] { from_t(&ntt::ntt(&to_r(w))) }
+#[inline(never)]
+pub fn inv_ntt<const N: usize>(w_hat: &[Poly; N]) -> [Poly; N] {
+    from_r(&ntt::inv_ntt(&to_t(w_hat)))
+}
+
+// ----- high_low.rs -----
+
+#[inline(never)]
+pub fn power2round<const K: usize>(r: &[Poly; K]) -> ([Poly; K], [Poly; K]) {
+    let (r1, r0) = high_low::power2round(&to_r(r));
+    (from_r(&r1), from_r(&r0))
+}
+#[inline(never)]
+pub fn decompose(gamma2: i32, r: i32) -> (i32, i32) { high_low::decompose(gamma2, r) }
+#[inline(never)]
+pub fn high_bits(gamma2: i32, r: i32) -> i32 { high_low::high_bits(gamma2, r) }
+#[inline(never)]
+pub fn low_bits(gamma2: i32, r: i32) -> i32 { high_low::low_bits(gamma2, r) }
+#[inline(never)]
+pub fn make_hint(gamma2: i32, z: i32, r: i32) -> bool { high_low::make_hint(gamma2, z, r) }
+#[inline(never)]
+pub fn use_hint(gamma2: i32, h: i32, r: i32) -> i32 { high_low::use_hint(gamma2, h, r) }
+
+// ----- conversion.rs -----
+
+#[inline(never)]
+pub fn coeff_from_three_bytes<const CTEST: bool>(b: [u8; 3]) -> Result<i32, &'static str> {
+    conversion::coeff_from_three_bytes::<CTEST>(b)
+}
+#[inline(never)]
+pub fn coeff_from_half_byte<const CTEST: bool>(eta: i32, b: u8) -> Result<i32, &'static str> {
+    conversion::coeff_from_half_byte::<CTEST>(eta, b)
+}
+#[inline(never)]
+pub fn simple_bit_pack(w: &Poly, b: i32, bytes_out: &mut [u8]) {
+    conversion::simple_bit_pack(&R(*w), b, bytes_out);
+}
+#[inline(never)]
+pub fn bit_pack(w: &Poly, a: i32, b: i32, bytes_out: &mut [u8]) {
+    conversion::bit_pack(&R(*w), a, b, bytes_out);
+}
+#[inline(never)]
+pub fn simple_bit_unpack(v: &[u8], b: i32) -> Result<Poly, &'static str> {
+    conversion::simple_bit_unpack(v, b).map(|r| r.0)
+}
+#[inline(never)]
+pub fn bit_unpack(v: &[u8], a: i32, b: i32) -> Result<Poly, &'static str> {
+    conversion::bit_unpack(v, a, b).map(|r| r.0)
+}
+#[inline(never)]
+pub fn hint_bit_pack<const CTEST: bool, const K: usize>(
+    omega: i32, h: &[Poly; K], y_bytes: &mut [u8],
+) {
+    conversion::hint_bit_pack::<CTEST, K>(omega, &to_r(h), y_bytes);
+}
+#[inline(never)]
+pub fn hint_bit_unpack<const K: usize>(
+    omega: i32, y_bytes: &[u8],
+) -> Result<[Poly; K], &'static str> {
+    conversion::hint_bit_unpack::<K>(omega, y_bytes).map(|h| from_r(&h))
+}
+
+// ----- encodings.rs -----
+
+#[inline(never)]
+pub fn pk_encode<const K: usize, const PK_LEN: usize>(
+    rho: &[u8; 32], t1: &[Poly; K],
+) -> [u8; PK_LEN] {
+    encodings::pk_encode::<K, PK_LEN>(rho, &to_r(t1))
+}
+#[inline(never)]
+pub fn pk_decode<const K: usize, const PK_LEN: usize>(
+    pk: &[u8; PK_LEN],
+) -> Result<([u8; 32], [Poly; K]), &'static str> {
+    encodings::pk_decode::<K, PK_LEN>(pk).map(|(rho, t1)| (*rho, from_r(&t1)))
+}
+#[inline(never)]
+pub fn sk_encode<const K: usize, const L: usize, const SK_LEN: usize>(
+    eta: i32, rho: &[u8; 32], k: &[u8; 32], tr: &[u8; 64], s_1: &[Poly; L], s_2: &[Poly; K],
+    t_0: &[Poly; K],
+) -> [u8; SK_LEN] {
+    encodings::sk_encode::<K, L, SK_LEN>(eta, rho, k, tr, &to_r(s_1), &to_r(s_2), &to_r(t_0))
+}
+#[inline(never)]
+pub fn sk_decode<const K: usize, const L: usize, const SK_LEN: usize>(
+    eta: i32, sk: &[u8; SK_LEN],
+) -> Result<([u8; 32], [u8; 32], [u8; 64], [Poly; L], [Poly; K], [Poly; K]), &'static str> {
+    encodings::sk_decode::<K, L, SK_LEN>(eta, sk)
+        .map(|(rho, k, tr, s1, s2, t0)| (*rho, *k, *tr, from_r(&s1), from_r(&s2), from_r(&t0)))
+}
+#[inline(never)]
+pub fn sig_encode<
+    const CTEST: bool,
+    const K: usize,
+    const L: usize,
+    const LAMBDA_DIV4: usize,
+    const SIG_LEN: usize,
+>(
+    gamma1: i32, omega: i32, c_tilde: &[u8; LAMBDA_DIV4], z: &[Poly; L], h: &[Poly; K],
+) -> [u8; SIG_LEN] {
+    encodings::sig_encode::<CTEST, K, L, LAMBDA_DIV4, SIG_LEN>(
+        gamma1,
+        omega,
+        c_tilde,
+        &to_r(z),
+        &to_r(h),
+    )
+}
+#[inline(never)]
+pub fn sig_decode<const K: usize, const L: usize, const LAMBDA_DIV4: usize, const SIG_LEN: usize>(
+    gamma1: i32, omega: i32, sigma: &[u8; SIG_LEN],
+) -> Result<([u8; LAMBDA_DIV4], [Poly; L], Option<[Poly; K]>), &'static str> {
+    encodings::sig_decode::<K, L, LAMBDA_DIV4, SIG_LEN>(gamma1, omega, sigma)
+        .map(|(c, z, h)| (c, from_r(&z), h.map(|h| from_r(&h))))
+}
+#[inline(never)]
+pub fn w1_encode<const K: usize>(gamma2: i32, w1: &[Poly; K], w1_tilde: &mut [u8]) {
+    encodings::w1_encode::<K>(gamma2, &to_r(w1), w1_tilde);
+}
+
+// ----- hashing.rs -----
+
+#[inline(never)]
+pub fn sample_in_ball<const CTEST: bool>(tau: i32, rho: &[u8]) -> Poly {
+    hashing::sample_in_ball::<CTEST>(tau, rho).0
+}
+#[inline(never)]
+pub fn expand_a<const CTEST: bool, const K: usize, const L: usize>(
+    rho: &[u8; 32],
+) -> [[Poly; L]; K] {
+    let a = hashing::expand_a::<CTEST, K, L>(rho);
+    core::array::from_fn(|i| from_t(&a[i]))
+}
+#[inline(never)]
+pub fn expand_s<const CTEST: bool, const K: usize, const L: usize>(
+    eta: i32, rho: &[u8; 64],
+) -> ([Poly; L], [Poly; K]) {
+    let (s1, s2) = hashing::expand_s::<CTEST, K, L>(eta, rho);
+    (from_r(&s1), from_r(&s2))
+}
+#[inline(never)]
+pub fn expand_mask<const L: usize>(gamma1: i32, rho: &[u8; 64], mu: u16) -> [Poly; L] {
+    from_r(&hashing::expand_mask::<L>(gamma1, rho, mu))
+}
